@@ -67,17 +67,23 @@ Definition is_client_msg (e : entry) : bool := etype_eqb (e_type e) EIrc || etyp
 
 (* after an IRCFromClient or MessageOfDeath entry of a session that exists, that session is
    either gone or carries the entry's client message id — whatever processing did (any oracle) *)
+Lemma is_dup_spec st e : is_dup st e = true <-> e_cmid e <> 0%N /\ last_post st (e_session e) = e_cmid e.
+Proof.
+  unfold is_dup. rewrite andb_true_iff, negb_true_iff, N.eqb_neq, N.eqb_eq. tauto.
+Qed.
+
 Theorem marker_after_apply o st e :
   is_client_msg e = true -> is_live st (e_session e) = true ->
   is_live (apply o st e) (e_session e) = true ->
   last_post (apply o st e) (e_session e) = e_cmid e.
 Proof.
-  unfold is_client_msg, apply, is_live, last_post. intros Ht Hl.
+  unfold is_client_msg, apply. intros Ht Hl.
   destruct (e_type e); simpl in Ht; try discriminate.
-  - unfold is_live in *. rewrite Hl. rewrite live_set_lastproc, live_kill, live_set_last, N.eqb_refl.
+  - destruct (is_dup st e) eqn:Hd; [intros _; now apply is_dup_spec in Hd|].
+    rewrite Hl. unfold is_live, last_post in *. rewrite live_set_lastproc, live_kill, live_set_last, N.eqb_refl.
     destruct (memN (e_session e) (o_deaths o)); [discriminate|].
     destruct (live st (e_session e)) as [s|]; [reflexivity|discriminate].
-  - unfold is_live in *. rewrite Hl. rewrite live_set_last, N.eqb_refl.
+  - rewrite Hl. unfold is_live, last_post in *. rewrite live_set_last, N.eqb_refl.
     destruct (live st (e_session e)) as [s|]; [reflexivity|discriminate].
 Qed.
 
@@ -91,7 +97,8 @@ Proof.
   intros Ht. destruct (is_live st (e_session e)) eqn:Hl.
   - destruct (is_live (apply o st e) (e_session e)) eqn:Hl'; [right|now left].
     now apply marker_after_apply.
-  - left. unfold is_client_msg in Ht. unfold apply. destruct (e_type e); simpl in Ht; try discriminate; now rewrite Hl.
+  - left. unfold is_client_msg in Ht. unfold apply. destruct (e_type e); simpl in Ht; try discriminate;
+      [destruct (is_dup st e)|]; now rewrite ?Hl.
 Qed.
 
 (* a session that has died stays dead unless a CreateSession with its id is applied *)
@@ -112,7 +119,8 @@ Proof.
   - destruct (o_created o); [|exact HI]. unfold Inv, is_live, last_post in *. rewrite !live_add.
     destruct (N.eqb_spec (e_id e) sid); [exfalso; now apply Hcr|exact HI].
   - destruct (is_live st (e_session e)); [|exact HI]. now apply Hkill.
-  - destruct (is_live st (e_session e)); [|exact HI]. apply Hkill. apply Hset. apply Hcm.
+  - destruct (is_dup st e); [exact HI|].
+    destruct (is_live st (e_session e)); [|exact HI]. apply Hkill. apply Hset. apply Hcm.
     unfold is_client_msg. now rewrite Ht.
   - destruct (is_live st (e_session e)); [|exact HI]. apply Hset. apply Hcm.
     unfold is_client_msg. rewrite Ht. reflexivity.
@@ -124,12 +132,19 @@ Qed.
 Lemma apply_sessions_indep o st1 st2 e :
   st_sessions st1 = st_sessions st2 -> st_sessions (apply o st1 e) = st_sessions (apply o st2 e).
 Proof.
-  intros H. unfold apply, is_live, live, add_session, set_lastproc, kill, set_last, map_sessions.
-  destruct (e_type e); cbn [st_sessions]; rewrite ?H; try reflexivity.
-  - destruct (o_created o); cbn [st_sessions]; now rewrite ?H.
-  - destruct (lookup (e_session e) (st_sessions st2)) as [s|]; [destruct (s_alive s)|]; cbn [st_sessions]; now rewrite ?H.
-  - destruct (lookup (e_session e) (st_sessions st2)) as [s|]; [destruct (s_alive s)|]; cbn [st_sessions]; now rewrite ?H.
-  - destruct (lookup (e_session e) (st_sessions st2)) as [s|]; [destruct (s_alive s)|]; cbn [st_sessions]; now rewrite ?H.
+  intros H.
+  assert (Hlive : forall k, live st1 k = live st2 k) by (intros k; unfold live; now rewrite H).
+  assert (Hdup : is_dup st1 e = is_dup st2 e) by (unfold is_dup, last_post; now rewrite Hlive).
+  assert (Hl : is_live st1 (e_session e) = is_live st2 (e_session e)) by (unfold is_live; now rewrite Hlive).
+  unfold apply. rewrite Hdup, Hl.
+  destruct (e_type e); try assumption.
+  - destruct (o_created o); [|assumption]. unfold add_session. cbn [st_sessions]. now rewrite H.
+  - destruct (is_live st2 (e_session e)); [|assumption].
+    unfold set_lastproc, kill, map_sessions. cbn [st_sessions]. now rewrite H.
+  - destruct (is_dup st2 e); [assumption|]. destruct (is_live st2 (e_session e)); [|assumption].
+    unfold set_lastproc, kill, set_last, map_sessions. cbn [st_sessions]. now rewrite H.
+  - destruct (is_live st2 (e_session e)); [|assumption].
+    unfold set_last, map_sessions. cbn [st_sessions]. now rewrite H.
 Qed.
 
 Theorem replicas_agree l : forall st1 st2,
@@ -146,6 +161,110 @@ Corollary replicas_markers l st1 st2 id :
   is_live (replay l st1) id = is_live (replay l st2) id.
 Proof.
   intros H. pose proof (replicas_agree l _ _ H) as E. unfold last_post, is_live, live. now rewrite E.
+Qed.
+
+(* ---- duplicates in the log (commit 92a4e2e) ------------------------------------------------------ *)
+Definition is_copy (sid c : N) (e : entry) : bool :=
+  etype_eqb (e_type e) EIrc && N.eqb (e_session e) sid && N.eqb (e_cmid e) c.
+
+Lemma is_copy_spec sid c e :
+  is_copy sid c e = true <-> e_type e = EIrc /\ e_session e = sid /\ e_cmid e = c.
+Proof.
+  unfold is_copy. rewrite !andb_true_iff, !N.eqb_eq. split.
+  - intros [[Ht Hs] Hc]. destruct (e_type e); simpl in Ht; try discriminate. auto.
+  - intros (Ht & Hs & Hc). rewrite Ht. auto.
+Qed.
+
+(* A second copy of the session's last message — proposed by whatever handler, in whatever
+   state that handler was — is the identity on the state of every node that applies it, and
+   is not processed (no output). *)
+Theorem dup_apply_identity o st e sid c :
+  Inv sid c st -> c <> 0%N -> is_copy sid c e = true ->
+  apply o st e = st /\ processes st e = false.
+Proof.
+  intros HI Hc0 Hcp. apply is_copy_spec in Hcp. destruct Hcp as (Ht & Hs & Hc).
+  unfold apply, processes. rewrite Ht.
+  destruct HI as [HI|HI].
+  - assert (Hd : is_dup st e = false).
+    { unfold is_dup. rewrite Hs, Hc. unfold last_post, is_live in *.
+      destruct (live st sid); [discriminate|]. destruct (N.eqb_spec 0%N c); [congruence|]. now rewrite andb_false_r. }
+    rewrite Hd, Hs, HI. auto.
+  - assert (Hd : is_dup st e = true) by (apply is_dup_spec; rewrite Hs, Hc; auto).
+    rewrite Hd. auto.
+Qed.
+
+(* entries that may follow the first copy of (sid, c) while it stays "the last message of its
+   session": anything of other sessions, deletes / configuration entries, and client messages
+   of sid itself only with the same client message id (the copies); no CreateSession re-uses
+   the id *)
+Definition tail_ok (sid c : N) (eo : entry * oracle) : Prop :=
+  (is_client_msg (fst eo) = true -> e_session (fst eo) = sid -> e_cmid (fst eo) = c) /\
+  (e_type (fst eo) = ECreate -> e_id (fst eo) <> sid).
+
+Lemma apply_tail_preserves_inv o st e sid c :
+  Inv sid c st -> tail_ok sid c (e, o) -> Inv sid c (apply o st e).
+Proof.
+  intros HI [Hcm Hcr]. cbn [fst] in *.
+  destruct (is_client_msg e) eqn:Hm.
+  - destruct (N.eq_dec (e_session e) sid) as [Hs|Hs].
+    + rewrite <- Hs, <- (Hcm eq_refl Hs). now apply apply_establishes_inv.
+    + apply apply_other_preserves_inv; auto.
+  - apply apply_other_preserves_inv; auto. intros H; congruence.
+Qed.
+
+Definition drop_copies (sid c : N) (l : list (entry * oracle)) : list (entry * oracle) :=
+  filter (fun eo => negb (is_copy sid c (fst eo))) l.
+
+(* a log with any number of extra copies behaves exactly like the log without them: same
+   state, same processed entries (hence same output), from every state in which the first copy
+   has been applied — on every replica, since this is a statement about replay alone *)
+Theorem duplicates_invisible sid c : c <> 0%N -> forall l st,
+  Inv sid c st -> Forall (tail_ok sid c) l ->
+  replay l st = replay (drop_copies sid c l) st /\
+  replay_proc l st = replay_proc (drop_copies sid c l) st.
+Proof.
+  intros Hc0. induction l as [|[e o] r IH]; intros st HI Hall; [auto|].
+  inversion Hall as [|? ? Hx Hr]; subst. cbn [drop_copies filter fst].
+  destruct (is_copy sid c e) eqn:Hcp; cbn [negb].
+  - destruct (dup_apply_identity o st e sid c HI Hc0 Hcp) as [Ha Hp].
+    cbn [replay replay_proc]. rewrite Ha, Hp. cbn [app]. now apply IH.
+  - cbn [replay replay_proc].
+    destruct (IH (apply o st e) (apply_tail_preserves_inv _ _ _ _ _ HI Hx) Hr) as [H1 H2].
+    fold (drop_copies sid c r). now rewrite H1, H2.
+Qed.
+
+Lemma replay_app l1 l2 st : replay (l1 ++ l2) st = replay l2 (replay l1 st).
+Proof. revert st. induction l1 as [|[e o] r IH]; intros st; simpl; [reflexivity|apply IH]. Qed.
+Lemma replay_proc_app l1 l2 st : replay_proc (l1 ++ l2) st = (replay_proc l1 st ++ replay_proc l2 (replay l1 st))%list.
+Proof.
+  revert st. induction l1 as [|[e o] r IH]; intros st; simpl; [reflexivity|].
+  now rewrite IH, app_assoc.
+Qed.
+
+(* closed form, no invariant in the statement: ANY log that contains the first copy e1 (as a
+   message or as a message of death), then entries that leave it the session's last message,
+   then a second copy e2 — however e2 got there — ends in the same state and has processed the
+   same entries as the log without e2 *)
+Theorem second_copy_in_log st0 l1 e1 o1 l2 e2 o2 :
+  is_client_msg e1 = true -> e_cmid e1 <> 0%N ->
+  Forall (tail_ok (e_session e1) (e_cmid e1)) l2 ->
+  is_copy (e_session e1) (e_cmid e1) e2 = true ->
+  replay (l1 ++ (e1, o1) :: l2 ++ [(e2, o2)]) st0 = replay (l1 ++ (e1, o1) :: l2) st0 /\
+  replay_proc (l1 ++ (e1, o1) :: l2 ++ [(e2, o2)]) st0 = replay_proc (l1 ++ (e1, o1) :: l2) st0.
+Proof.
+  intros Hm Hc0 Htail Hcp.
+  set (sid := e_session e1) in *. set (c := e_cmid e1) in *.
+  assert (HI : Inv sid c (replay (l1 ++ (e1, o1) :: l2) st0)).
+  { rewrite replay_app. cbn [replay].
+    assert (H0 : Inv sid c (apply o1 (replay l1 st0) e1)) by (now apply apply_establishes_inv).
+    revert H0. generalize (apply o1 (replay l1 st0) e1). clear - Htail.
+    induction l2 as [|[e o] r IH]; intros st H0; [exact H0|].
+    inversion Htail; subst. cbn [replay]. apply IH; [assumption|]. now apply apply_tail_preserves_inv. }
+  destruct (dup_apply_identity o2 _ e2 sid c HI Hc0 Hcp) as [Ha Hp].
+  replace (l1 ++ (e1, o1) :: l2 ++ [(e2, o2)])%list with ((l1 ++ (e1, o1) :: l2) ++ [(e2, o2)])%list
+    by (now rewrite <- app_assoc).
+  rewrite replay_app, replay_proc_app. cbn [replay replay_proc]. rewrite Ha, Hp. cbn [app].
+  now rewrite app_nil_r.
 Qed.
 
 (* ---- the handler -------------------------------------------------------------------------------- *)
@@ -193,16 +312,27 @@ Qed.
    last message of its session": repeats of that message (any body that decodes to the same
    client message id), anything addressed to other sessions, any entry that is not a client
    message of sid (deletes of sid included), and restores.  CreateSession never re-uses an id
-   (ids are raft indexes). *)
+   (ids are raft indexes).  [allowed]: every handler is caught up (it answers from the state of
+   the node that applies).  [allowed_any]: handlers may answer from ANY state (EvPostFrom), and
+   copies may be committed by any other means (EvApply). *)
 Definition allowed (sid c : N) (ev : event) : Prop :=
   match ev with
   | EvPost t _ b _ => parse_uint0 t = Some sid -> exists d, json_decode (stake body_limit b) = Some (d, c)
+  | EvPostFrom _ _ _ _ _ => False
   | EvApply e _ => (is_client_msg e = true -> e_session e <> sid) /\ (e_type e = ECreate -> e_id e <> sid)
+  | EvRestore => True
+  end.
+Definition allowed_any (sid c : N) (ev : event) : Prop :=
+  match ev with
+  | EvPost t _ b _ | EvPostFrom _ t _ b _ =>
+      parse_uint0 t = Some sid -> exists d, json_decode (stake body_limit b) = Some (d, c)
+  | EvApply e o => tail_ok sid c (e, o)
   | EvRestore => True
   end.
 
 Definition own (sid : N) (eo : entry * oracle) : bool := N.eqb (e_session (fst eo)) sid && is_client_msg (fst eo).
 Definition own_entries (sid : N) (l : list (entry * oracle)) := filter (own sid) l.
+Definition own_e (sid : N) (e : entry) : bool := N.eqb (e_session e) sid && is_client_msg e.
 
 Lemma own_entries_app sid l x : own sid x = false -> own_entries sid (l ++ [x]) = own_entries sid l.
 Proof. intros H. unfold own_entries. rewrite filter_app. simpl. rewrite H. apply app_nil_r. Qed.
@@ -213,42 +343,86 @@ Theorem retry_is_noop s t hdr b o sid c d :
   json_decode (stake body_limit b) = Some (d, c) ->
   step s (EvPost t hdr b o) = s.
 Proof.
-  intros HI Hp Hj. unfold Post.step.
+  intros HI Hp Hj. unfold Post.step, Post.post_from.
   destruct (session_check (s_node s) hdr t) as [id|r] eqn:Hs; [|reflexivity].
   apply session_check_live in Hs. destruct Hs as [Hp' Hl]. rewrite Hp in Hp'. inversion Hp'; subst id.
   destruct HI as [HI|HI]; [congruence|].
   now rewrite (handler_ack _ _ _ _ _ Hj HI).
 Qed.
 
+(* the request answered from ANY state [view]: the applying node's state and its processed
+   entries do not change (at most a log entry is added, which every replica skips) *)
+Theorem stale_retry_is_invisible view s t hdr b o sid c d :
+  Inv sid c (s_node s) -> c <> 0%N -> parse_uint0 t = Some sid ->
+  json_decode (stake body_limit b) = Some (d, c) ->
+  s_node (post_from json_decode view s t hdr b o) = s_node s /\
+  s_proc (post_from json_decode view s t hdr b o) = s_proc s.
+Proof.
+  intros HI Hc0 Hp Hj. unfold Post.post_from.
+  destruct (session_check view hdr t) as [id|r] eqn:Hs; [|auto].
+  apply session_check_live in Hs. destruct Hs as [Hp' _]. rewrite Hp in Hp'. inversion Hp'; subst id.
+  destruct (Post.post_handler json_decode view sid b) as [| | |e] eqn:Hh; auto.
+  apply handler_propose in Hh. destruct Hh as (d' & c' & Hj' & _ & _ & ->). rewrite Hj in Hj'. inversion Hj'; subst d' c'.
+  unfold commit. cbn [s_node s_proc].
+  destruct (dup_apply_identity o (s_node s) (with_id (mkEntry EIrc 0 sid c (cut_line d) 0) (next_index s)) sid c HI Hc0) as [Ha Hpr].
+  { apply is_copy_spec. cbn. auto. }
+  rewrite Ha, Hpr. now rewrite app_nil_r.
+Qed.
+
+Lemma filter_app_one {A} (f : A -> bool) l x : f x = false -> filter f (l ++ [x]) = filter f l.
+Proof. intros H. rewrite filter_app. simpl. rewrite H. apply app_nil_r. Qed.
+
+Lemma commit_other sid c s e o :
+  Inv sid c (s_node s) -> tail_ok sid c (e, o) -> own_e sid e = false ->
+  Inv sid c (s_node (commit s e o)) /\
+  own_entries sid (s_log (commit s e o)) = own_entries sid (s_log s) /\
+  filter (own_e sid) (s_proc (commit s e o)) = filter (own_e sid) (s_proc s).
+Proof.
+  intros HI Ht Ho. unfold commit. cbn [s_node s_log s_proc]. repeat split.
+  - now apply apply_tail_preserves_inv.
+  - apply own_entries_app. exact Ho.
+  - destruct (processes (s_node s) e); [now apply filter_app_one|now rewrite app_nil_r].
+Qed.
+
+Lemma post_from_other view s t hdr b o sid c id :
+  Inv sid c (s_node s) -> session_check view hdr t = inl id -> id <> sid ->
+  Inv sid c (s_node (post_from json_decode view s t hdr b o)) /\
+  own_entries sid (s_log (post_from json_decode view s t hdr b o)) = own_entries sid (s_log s) /\
+  filter (own_e sid) (s_proc (post_from json_decode view s t hdr b o)) = filter (own_e sid) (s_proc s).
+Proof.
+  intros HI Hs Hne. unfold Post.post_from. rewrite Hs.
+  destruct (Post.post_handler json_decode view id b) as [| | |e] eqn:Hh; auto.
+  apply handler_propose in Hh. destruct Hh as (d & c' & _ & _ & _ & ->).
+  apply commit_other; [assumption| |].
+  - split; cbn; [congruence|discriminate].
+  - unfold own_e. cbn. destruct (N.eqb_spec id sid); [congruence|reflexivity].
+Qed.
+
 Lemma step_preserves sid c s ev :
   Inv sid c (s_node s) -> allowed sid c ev ->
   Inv sid c (s_node (step s ev)) /\ own_entries sid (s_log (step s ev)) = own_entries sid (s_log s).
 Proof.
-  intros HI Hal. destruct ev as [t hdr b o|e o|]; simpl in Hal.
+  intros HI Hal. destruct ev as [t hdr b o|view t hdr b o|e o|]; simpl in Hal; [| contradiction | |].
   - destruct (session_check (s_node s) hdr t) as [id|r] eqn:Hs.
     + destruct (session_check_live _ _ _ _ Hs) as [Hp Hl].
       destruct (N.eq_dec id sid) as [->|Hne].
       * destruct (Hal Hp) as [d Hj]. rewrite (retry_is_noop s t hdr b o sid c d HI Hp Hj). auto.
-      * unfold Post.step. rewrite Hs.
-        destruct (Post.post_handler json_decode (s_node s) id b) as [| | |e] eqn:Hh; auto.
-        apply handler_propose in Hh. destruct Hh as (d & c' & _ & _ & _ & ->). cbn [s_node s_log].
-        split.
-        -- apply apply_other_preserves_inv; [assumption| |]; cbn; [congruence|discriminate].
-        -- apply own_entries_app. unfold own. cbn. destruct (N.eqb_spec id sid); [congruence|reflexivity].
-    + unfold Post.step. rewrite Hs. auto.
-  - destruct Hal as [Hcm Hcr]. cbn [Post.step s_node s_log]. split.
-    + now apply apply_other_preserves_inv.
-    + apply own_entries_app. unfold own. cbn [fst].
-      destruct (is_client_msg e) eqn:Hc; [|now rewrite andb_false_r].
-      destruct (N.eqb_spec (e_session e) sid); [exfalso; now apply Hcm|reflexivity].
+      * cbn [Post.step]. destruct (post_from_other (s_node s) s t hdr b o sid c id HI Hs Hne) as (H1 & H2 & _). auto.
+    + cbn [Post.step]. unfold Post.post_from. rewrite Hs. auto.
+  - destruct Hal as [Hcm Hcr]. cbn [Post.step].
+    assert (Ho : own_e sid e = false).
+    { unfold own_e. destruct (is_client_msg e) eqn:Hc; [|now rewrite andb_false_r].
+      destruct (N.eqb_spec (e_session e) sid); [exfalso; now apply Hcm|reflexivity]. }
+    destruct (commit_other sid c s e o HI) as (H1 & H2 & _); auto.
+    split; cbn [fst]; [intros Hm Hs; exfalso; now apply (Hcm Hm)|assumption].
   - cbn [Post.step s_node s_log]. split; [|reflexivity].
     destruct (restore_markers (s_node s) sid) as [Hl Hp]. unfold Inv in *. rewrite Hl, Hp. exact HI.
 Qed.
 
-(* C10 over histories: once the first copy of (sid, c) has been applied on the node that
-   handles the retries (Inv), no sequence of repeats — interleaved with other sessions'
-   traffic, deletes, configuration entries and snapshot restores — adds an entry of that
-   session to the log; every single repeat leaves log and state untouched (retry_is_noop). *)
+(* C10 over histories, handlers caught up: once the first copy of (sid, c) has been applied on
+   the node that handles the retries (Inv), no sequence of repeats — interleaved with other
+   sessions' traffic, deletes, configuration entries and snapshot restores — adds an entry of
+   that session to the log; every single repeat leaves log and state untouched (retry_is_noop). *)
 Theorem retries_add_nothing sid c evs : forall s,
   Inv sid c (s_node s) -> Forall (allowed sid c) evs ->
   Inv sid c (s_node (run evs s)) /\ own_entries sid (s_log (run evs s)) = own_entries sid (s_log s).
@@ -259,6 +433,59 @@ Proof.
   destruct (IH _ HI' Hr) as [HI'' Hlog']. split; [assumption|]. now rewrite Hlog'.
 Qed.
 
+Lemma step_any_preserves sid c s ev :
+  c <> 0%N -> Inv sid c (s_node s) -> allowed_any sid c ev ->
+  Inv sid c (s_node (step s ev)) /\ filter (own_e sid) (s_proc (step s ev)) = filter (own_e sid) (s_proc s).
+Proof.
+  intros Hc0 HI Hal.
+  assert (Hpost : forall view t hdr b o,
+            (parse_uint0 t = Some sid -> exists d, json_decode (stake body_limit b) = Some (d, c)) ->
+            Inv sid c (s_node (post_from json_decode view s t hdr b o)) /\
+            filter (own_e sid) (s_proc (post_from json_decode view s t hdr b o)) = filter (own_e sid) (s_proc s)).
+  { intros view t hdr b o Hret.
+    destruct (session_check view hdr t) as [id|r] eqn:Hs.
+    - destruct (session_check_live _ _ _ _ Hs) as [Hp _].
+      destruct (N.eq_dec id sid) as [->|Hne].
+      + destruct (Hret Hp) as [d Hj].
+        destruct (stale_retry_is_invisible view s t hdr b o sid c d HI Hc0 Hp Hj) as [Hn Hpr].
+        rewrite Hn, Hpr. auto.
+      + destruct (post_from_other view s t hdr b o sid c id HI Hs Hne) as (H1 & _ & H3). auto.
+    - unfold Post.post_from. rewrite Hs. auto. }
+  destruct ev as [t hdr b o|view t hdr b o|e o|]; simpl in Hal; cbn [Post.step].
+  - now apply Hpost.
+  - now apply Hpost.
+  - unfold commit. cbn [s_node s_proc]. split; [now apply apply_tail_preserves_inv|].
+    destruct (is_copy sid c e) eqn:Hcp.
+    + destruct (dup_apply_identity o (s_node s) e sid c HI Hc0 Hcp) as [_ Hpr]. rewrite Hpr. now rewrite app_nil_r.
+    + destruct (processes (s_node s) e) eqn:Hpr; [|now rewrite app_nil_r].
+      apply filter_app_one. unfold own_e.
+      destruct (N.eqb_spec (e_session e) sid) as [Hs|Hs]; [|reflexivity]. cbn [andb].
+      destruct (is_client_msg e) eqn:Hm; [|reflexivity]. exfalso.
+      destruct Hal as [Hcm _]. cbn [fst] in Hcm. specialize (Hcm Hm Hs).
+      (* a processed client message of sid with cmid c: it is an EIrc, hence a copy *)
+      unfold processes in Hpr. unfold is_client_msg in Hm.
+      destruct (e_type e) eqn:Ht; simpl in Hm; try discriminate.
+      assert (is_copy sid c e = true) by (apply is_copy_spec; auto). congruence.
+  - cbn [s_node s_proc]. split; [|reflexivity].
+    destruct (restore_markers (s_node s) sid) as [Hl Hp]. unfold Inv in *. rewrite Hl, Hp. exact HI.
+Qed.
+
+(* C10 over histories, handlers in ANY state (this subsumes D14): once the first copy of
+   (sid, c), c <> 0, has been applied on a node, no sequence of repeats — answered by handlers
+   that are caught up, lagging or looking at arbitrary states, or copies committed by any other
+   means — interleaved with other traffic, deletes, configuration entries and restores, makes
+   that node process a client message of sid again: the message is processed at most once. *)
+Theorem retries_processed_once sid c evs : c <> 0%N -> forall s,
+  Inv sid c (s_node s) -> Forall (allowed_any sid c) evs ->
+  Inv sid c (s_node (run evs s)) /\
+  filter (own_e sid) (s_proc (run evs s)) = filter (own_e sid) (s_proc s).
+Proof.
+  intros Hc0. induction evs as [|ev r IH]; intros s HI Hall; simpl; [auto|].
+  inversion Hall as [|? ? Hev Hr]; subst.
+  destruct (step_any_preserves sid c s ev Hc0 HI Hev) as [HI' Hp].
+  destruct (IH _ HI' Hr) as [HI'' Hp']. split; [assumption|]. now rewrite Hp'.
+Qed.
+
 (* the first copy establishes the invariant: as an ordinary message ... *)
 Theorem first_copy_establishes s t hdr b o sid d c :
   session_check (s_node s) hdr t = inl sid ->
@@ -266,7 +493,7 @@ Theorem first_copy_establishes s t hdr b o sid d c :
   st_leader (s_node s) = true ->
   Inv sid c (s_node (step s (EvPost t hdr b o))).
 Proof.
-  intros Hs Hj Hlead. unfold Post.step. rewrite Hs.
+  intros Hs Hj Hlead. unfold Post.step, Post.post_from. rewrite Hs.
   destruct (Post.post_handler json_decode (s_node s) sid b) as [| | |e] eqn:Hh.
   - unfold Post.post_handler in Hh. rewrite Hj in Hh. destruct (N.eqb _ c); [discriminate|].
     rewrite Hlead in Hh. discriminate.
@@ -274,20 +501,20 @@ Proof.
     rewrite Hlead in Hh. discriminate.
   - unfold Post.post_handler in Hh. rewrite Hj, Hlead in Hh. destruct (N.eqb _ c); discriminate.
   - apply handler_propose in Hh. destruct Hh as (d' & c' & Hj' & _ & _ & ->). rewrite Hj in Hj'. inversion Hj'; subst.
-    cbn [s_node]. exact (apply_establishes_inv o (s_node s) (with_id (mkEntry EIrc 0 sid c' (cut_line d') 0) (next_index s)) eq_refl).
+    unfold commit. cbn [s_node]. exact (apply_establishes_inv o (s_node s) (with_id (mkEntry EIrc 0 sid c' (cut_line d') 0) (next_index s)) eq_refl).
 Qed.
 
 (* ... and as a message of death (the first copy panicked and the log entry was rewritten) *)
 Theorem mod_copy_establishes s e o :
   e_type e = EMod -> Inv (e_session e) (e_cmid e) (s_node (step s (EvApply e o))).
-Proof. intros Ht. cbn [Post.step s_node]. apply apply_establishes_inv. unfold is_client_msg. rewrite Ht. reflexivity. Qed.
+Proof. intros Ht. cbn [Post.step]. unfold commit. cbn [s_node]. apply apply_establishes_inv. unfold is_client_msg. rewrite Ht. reflexivity. Qed.
 End Handler.
 
 (* ---- non-vacuity -------------------------------------------------------------------------------- *)
 Definition ex_json (b : string) : option (string * N) :=
   if String.eqb b "m1" then Some ("PRIVMSG #c :hi" ++ String "010"%char "forged", 41%N)
   else if String.eqb b "m2" then Some ("QUIT", 42%N) else None.
-Definition ex_sys : sys := mkSys [] ex_state.
+Definition ex_sys : sys := mkSys [] ex_state [].
 Definition ex_o := mkOracle [] true.
 
 Example ex_first_then_retries :
@@ -303,4 +530,21 @@ Example ex_allowed :
     [EvPost "7" (Some "aa11") "m1" ex_o; EvRestore; EvPost "0x9" (Some "bb22") "m2" (mkOracle [9%N] true); EvPost "0x7" (Some "aa11") "m1" ex_o].
 Proof.
   repeat constructor; simpl; intros H; try discriminate; eexists; reflexivity.
+Qed.
+
+(* D14: the retry is answered by a handler that still sees the state BEFORE the first copy
+   (ex_state: marker 0) and therefore proposes it again; the second copy lands in the log, the
+   state and the processed entries stay what they were *)
+Example ex_lagging_handler :
+  let s1 := step ex_json (fun st => st) ex_sys (EvPost "0x7" (Some "aa11") "m1" ex_o) in
+  let s2 := step ex_json (fun st => st) s1 (EvPostFrom ex_state "0x7" (Some "aa11") "m1" ex_o) in
+  List.length (s_log s1) = 1 /\ List.length (s_log s2) = 2 /\ s_node s2 = s_node s1 /\
+  List.length (s_proc s1) = 1 /\ s_proc s2 = s_proc s1.
+Proof. vm_compute. repeat split; reflexivity. Qed.
+Example ex_allowed_any :
+  Forall (allowed_any ex_json 7%N 41%N)
+    [EvPostFrom ex_state "0x7" (Some "aa11") "m1" ex_o; EvRestore;
+     EvApply (mkEntry EIrc 9 7 41 "PRIVMSG #c :hi" 0) ex_o; EvPost "0x9" (Some "bb22") "m2" (mkOracle [9%N] true)].
+Proof.
+  repeat constructor; simpl; try (intros H; try discriminate; eexists; reflexivity); try discriminate; auto.
 Qed.
